@@ -8,6 +8,8 @@ AST nodes are JSON-able dicts in the format of `lean/PdeVerif/Drv/C11.lean`:
   {"k":"named","n":"pi"|"E"}   {"k":"neg","a":..}   {"k":"add"|"sub"|"mul"|"div","a":..,"b":..}
   {"k":"powi","a":..,"n":int}   {"k":"call1","f":name,"a":..}   {"k":"call2","f":name,"a":..,"b":..}
   {"k":"heav1","a":..}   {"k":"heav2","a":..,"h":..}   {"k":"cmp","op":"lt|le|gt|ge","a":..,"b":..}
+  {"k":"pw","h":cond,"a":..,"b":..}   = `Piecewise((a, cond), (b, True))` (a longer chain nests in "b";
+                                         the Lean driver reads it as the model's `select cond a b`)
 The general power `a**b` is {"k":"call2","f":"pow",...}.  `hv` on heav nodes records the spelling
 (`heaviside` or `Heaviside`); it does not influence the meaning."""
 import ast as pyast
@@ -185,6 +187,14 @@ def to_text(e, sp=None):
         return f"{e.get('hv', 'heaviside')}({to_text(e['a'], sp)},{w()}{to_text(e['h'], sp)})"
     if k == "cmp":
         return _par(e["a"], P_ADD, sp) + " " + CMP[e["op"]] + " " + _par(e["b"], P_ADD, sp)
+    if k == "pw":
+        # Piecewise((a1, c1), (a2, c2), ..., (b, True)): a chain of "pw" nodes nested in "b" is printed flat
+        pairs, cur = [], e
+        while cur["k"] == "pw":
+            pairs.append(f"({to_text(cur['a'], sp)},{w()}{to_text(cur['h'], sp)})")
+            cur = cur["b"]
+        pairs.append(f"({to_text(cur, sp)},{w()}True)")
+        return "Piecewise(" + ("," + w()).join(pairs) + ")"
     raise ValueError(k)
 
 
@@ -253,6 +263,23 @@ def _conv(n, src, declared):
         if not isinstance(n.func, pyast.Name) or n.keywords:
             raise ReadError("call")
         f = n.func.id
+        if f == "Piecewise":
+            # Piecewise((value, condition), ..., (value, True)) -> nested "pw" nodes
+            pairs = []
+            for a in n.args:
+                if not (isinstance(a, pyast.Tuple) and len(a.elts) == 2):
+                    raise ReadError("Piecewise argument")
+                pairs.append(a.elts)
+            last = pairs[-1][1] if pairs else None
+            if not (isinstance(last, pyast.Constant) and last.value is True) or len(pairs) < 2:
+                raise ReadError("Piecewise without a final (value, True)")
+            out = _conv(pairs[-1][0], src, declared)
+            for val, cond in reversed(pairs[:-1]):
+                c = _conv(cond, src, declared)
+                if c["k"] != "cmp":
+                    raise ReadError("Piecewise condition")
+                out = {"k": "pw", "h": c, "a": _conv(val, src, declared), "b": out}
+            return out
         args = [_conv(x, src, declared) for x in n.args]
         if f in ("heaviside", "Heaviside"):
             if len(args) == 1:
@@ -394,6 +421,11 @@ def evalerr(e, env, ufuncs=None, flags=None):
             op = e["op"]
             r = x < y if op == "lt" else x <= y if op == "le" else x > y if op == "gt" else x >= y
             return (1.0 if r else 0.0), 0.0
+        if k == "pw":
+            # the condition decides (a tie within reach of rounding is flagged as a jump by the comparison); only
+            # the selected branch is evaluated, as in the generated code `(a) if (cond) else (b)`
+            c, _ac = evalerr(e["h"], env, ufuncs, flags)
+            return evalerr(e["a"] if c != 0 else e["b"], env, ufuncs, flags)
     except (ValueError, OverflowError, ZeroDivisionError, KeyError, IndexError, TypeError) as ex:
         raise Undefined(f"{type(ex).__name__}: {ex}")
     raise Undefined(f"unknown node {k}")
@@ -455,13 +487,25 @@ def conditioning(e, env, ufuncs=None, rng=None):
 
 # ------------------------------------------------------------------------------------------
 # Python's own evaluation of the text (second, independent reference)
+def piecewise(*pairs):
+    """Python reading of `Piecewise((value, condition), ..., (value, True))`: the first value whose condition holds
+    (all values are evaluated: a point where any branch is undefined is an undefined point of the reference)"""
+    for value, cond in pairs:
+        if cond:
+            return value
+    raise ValueError("Piecewise without a true condition")
+
+
 def python_namespace(ufuncs=None):
     ns = {name: fn for name, (fn, _d, _dom) in FUN1.items()}
     ns.update({"hypot": math.hypot, "atan2": math.atan2, "pi": math.pi, "E": math.e,
                "heaviside": heaviside, "Heaviside": heaviside, "floor": lambda x: float(math.floor(x)),
-               "ceiling": lambda x: float(math.ceil(x)), "__builtins__": {}})
+               "ceiling": lambda x: float(math.ceil(x)), "Piecewise": piecewise, "__builtins__": {}})
+    # the body of a user function sees the BASE functions only (a user function may carry the name of a base
+    # function - `log` meaning the decadic logarithm - and use the base function of that name in its body)
+    base = dict(ns)
     for name, (ps, body) in (ufuncs or {}).items():
-        ns[name] = eval(f"lambda {', '.join(ps)}: {to_text(body)}", dict(ns))
+        ns[name] = eval(f"lambda {', '.join(ps)}: {to_text(body)}", dict(base))
     return ns
 
 
@@ -595,6 +639,9 @@ def ival(e, ranges, ufuncs=None):
         return (min(0.0, hl), max(1.0, hh))
     if k == "cmp":
         return (0.0, 1.0)
+    if k == "pw":
+        (al, ah), (bl, bh) = cs["a"], cs["b"]
+        return (min(al, bl), max(ah, bh))
     return None
 
 
@@ -856,7 +903,7 @@ def in_diff_fragment(e, ufuncs=()):
     derivative can be turned into a function again)"""
     for n in walk(e):
         k = n["k"]
-        if k in ("heav1", "heav2", "cmp", "idx"):
+        if k in ("heav1", "heav2", "cmp", "idx", "pw"):
             return False
         if k == "call1" and n["f"] not in DIFF_FUN1:
             return False
@@ -870,9 +917,12 @@ def rational_fragment(e, ufuncs=None):
         k = n["k"]
         if k == "named":
             return False
-        if k == "call1" and n["f"] not in ("abs",):
-            if ufuncs and n["f"] in ufuncs and len(ufuncs[n["f"]][0]) == 1 and rational_fragment(ufuncs[n["f"]][1]):
+        if k == "call1" and ufuncs and n["f"] in ufuncs:
+            # a user function (it may carry the name of a base function, `abs` included): its body decides
+            if len(ufuncs[n["f"]][0]) == 1 and rational_fragment(ufuncs[n["f"]][1]):
                 continue
+            return False
+        if k == "call1" and n["f"] not in ("abs",):
             return False
         if k == "call2":
             if ufuncs and n["f"] in ufuncs and len(ufuncs[n["f"]][0]) == 2 and rational_fragment(ufuncs[n["f"]][1]):
